@@ -164,6 +164,10 @@ func ZZ_C13_Loading() {
 	}
 	vfSetPreemptions(0)
 	vfReach("all-callers-finished")
+	// C16: every loading Get counts as exactly one hit or one miss, also when it shared another caller's load or
+	// ended in an error, a panic or Goexit
+	st := s.Stats()
+	vfAssert("every-call-counted-once", st.Hits()+st.Misses() == uint64(N))
 	for i := 0; i < N; i++ {
 		switch outcome {
 		case 0:
